@@ -235,11 +235,12 @@ func (r POST) Check(w *World) []Result {
 				}
 				// a materialised boolean: the literal may be one predecessor's operand of the join
 				if phi := boolJoin(b); phi != nil {
-					for _, e := range phi.Edges {
-						if _, isConst := e.(*ssa.Const); isConst {
+					for k := range phi.Edges {
+						truth, jt, jf := w.joinOperand(b, phi, k)
+						if truth >= 0 {
 							continue
 						}
-						for i, l := range []Lit{w.NormLit(e, true), w.NormLit(e, false)} {
+						for i, l := range []Lit{jt, jf} {
 							if pat.Match(l) && len(b.Succs[i].Instrs) > 0 {
 								starts = append(starts, start{nil, f, b.Succs[i], b})
 							}
@@ -783,99 +784,20 @@ func (r FLAG) Check(w *World) []Result {
 		return anchorMissing(r.ID, "FLAG", r.Fn)
 	}
 	construct := "FLAG:" + r.Fn + "▸" + r.Sink + "⇐¬" + r.Lit
-	sites := w.Sites(fn, regexp.MustCompile(r.Sink), false)
+	sites := w.SitesOr(fn, regexp.MustCompile(r.Sink), false, 1)
 	if len(sites) == 0 {
 		return []Result{one(r.ID, "FLAG", construct, Violated, 0, w.Pos(fn.Pos()), "vacuous: effect site not found")}
 	}
-	pat := MustLitPat(r.Lit)
+	g := G("+none:" + r.Lit)
 	var out []Result
 	for _, s := range sites {
-		// find a guarding bool phi with polarity +
-		var flag *ssa.Phi
-		b := s.Block()
-		for b != nil && flag == nil {
-			d := b.Idom()
-			if d == nil {
-				break
-			}
-			if len(d.Instrs) > 0 {
-				if ifi, ok := d.Instrs[len(d.Instrs)-1].(*ssa.If); ok && len(b.Preds) == 1 && b.Preds[0] == d && d.Succs[0] == b {
-					if p, ok := ifi.Cond.(*ssa.Phi); ok {
-						flag = p
-					}
-				}
-			}
-			b = d
-		}
-		if flag == nil {
-			out = append(out, one(r.ID, "FLAG", construct, Violated, len(sites), w.InstrPos(s), "effect is not guarded by a loop flag (bool phi) on its true edge"))
-			continue
-		}
-		falseEdge := map[*ssa.BasicBlock]bool{}
-		for i, e := range flag.Edges {
-			if bv, ok := boolConst(e); ok && !bv {
-				falseEdge[flag.Block().Preds[i]] = true
-			}
-		}
-		n := 0
-		for _, blk := range fn.Blocks {
-			t, f, ok := w.BlockLits(blk)
-			if !ok {
-				continue
-			}
-			for i, l := range []Lit{t, f} {
-				if !pat.Match(l) {
-					continue
-				}
-				n++
-				// all paths from blk.Succs[i] into flag.Block() must enter via a false edge
-				start := blk.Succs[i]
-				entered := map[*ssa.BasicBlock]bool{}
-				if start == flag.Block() {
-					entered[blk] = true
-				} else {
-					seen := map[*ssa.BasicBlock]bool{start: true}
-					st := []*ssa.BasicBlock{start}
-					for len(st) > 0 {
-						x := st[len(st)-1]
-						st = st[:len(st)-1]
-						for _, su := range x.Succs {
-							if su == flag.Block() {
-								entered[x] = true
-								continue
-							}
-							if !seen[su] {
-								seen[su] = true
-								st = append(st, su)
-							}
-						}
-					}
-				}
-				for p := range entered {
-					if !falseEdge[p] {
-						out = append(out, one(r.ID, "FLAG", construct, Violated, len(sites), w.InstrPos(blk.Instrs[len(blk.Instrs)-1]),
-							fmt.Sprintf("in %s the branch `%s` does not force the flag guarding `%s` to false", r.Fn, l, clip(w.RenderInstr(s), 80))))
-					}
-				}
-				if len(entered) == 0 {
-					// the edge leaves the loop (return/continue outer) — also fine: the effect for this element is skipped only if sink unreachable
-					if Reach([]*ssa.BasicBlock{start}, nil)[s.Block()] {
-						out = append(out, one(r.ID, "FLAG", construct, Violated, len(sites), w.InstrPos(blk.Instrs[len(blk.Instrs)-1]),
-							fmt.Sprintf("in %s the branch `%s` bypasses the flag but still reaches the effect", r.Fn, l)))
-					}
-				}
-			}
-		}
-		min := r.Min
-		if min == 0 {
-			min = 1
-		}
-		if n < min {
-			out = append(out, one(r.ID, "FLAG", construct, Violated, n, w.Pos(fn.Pos()), fmt.Sprintf("vacuous: %d branch(es) on `%s`, %d confirmed by hand", n, r.Lit, min)))
+		if !w.GuardedBy(s, g) {
+			out = append(out, one(r.ID, "FLAG", construct, Violated, len(sites), w.InstrPos(s),
+				fmt.Sprintf("in %s the effect `%s` is not guarded by a flag that is true only when no element took `%s` (a loop flag forced to false on that branch, or a private helper returning false on it)", r.Fn, clip(w.RenderInstr(s), 80), r.Lit)))
 		}
 	}
 	if len(out) == 0 {
-		out = append(out, one(r.ID, "FLAG", construct, Discharged, len(sites), w.InstrPos(sites[0]), "flag forced false on every matching branch; effect requires the flag"))
+		out = append(out, one(r.ID, "FLAG", construct, Discharged, len(sites), w.InstrPos(sites[0]), "flag forced false on every matching branch and only there; effect requires the flag"))
 	}
 	return out
 }
